@@ -53,9 +53,19 @@ class Q:
         return Q(self.mag ** n if isinstance(self.mag, SymArray) else SR.lift(self.mag) ** n, tuple(a * n for a in self.dims), SR.lift(self.scale) ** n)
 
     def __add__(self, o):
-        if not isinstance(o, Q) or o.dims != self.dims:
+        if not isinstance(o, Q):
+            if isinstance(o, (int, float)) and o == 0:
+                return self          # pint: adding the number zero is allowed for every unit (what the builtin sum() relies on)
             raise DimensionalityError("add")
-        return Q(SR.lift(self.mag) + SR.lift(o.mag) * SR.lift(o.scale) / SR.lift(self.scale), self.dims, self.scale)
+        if o.dims != self.dims:
+            raise DimensionalityError("add")
+        f = SR.lift(o.scale) / SR.lift(self.scale)
+        if isinstance(self.mag, SymArray) or isinstance(o.mag, SymArray):
+            return Q(self.mag + o.mag * f, self.dims, self.scale)
+        return Q(SR.lift(self.mag) + SR.lift(o.mag) * f, self.dims, self.scale)
+
+    def __radd__(self, o):
+        return self.__add__(o)
 
     def __neg__(self):
         return Q(-self.mag, self.dims, self.scale)
